@@ -747,6 +747,19 @@ func (e *regRun) step(op string) (res string) {
 		}
 		ch, _ := e.request("GET", "/no/such/route")
 		return ch
+	case f[0] == "probeq" && len(f) == 3: // the raw request target (may contain %2F), parsed as net/http does
+		p, ok := unhx(f[2])
+		if !ok {
+			return "bad-op"
+		}
+		if e.dead {
+			return "skipped"
+		}
+		ch, allow := e.request(f[1], p)
+		if allow != "" {
+			return ch + " allow=" + allow
+		}
+		return ch
 	case f[0] == "probe" && len(f) == 3:
 		p, ok := unhx(f[2])
 		if !ok {
